@@ -298,9 +298,13 @@ static bool account(const VpCase& c, bool allow_minimise = true) {
     if (g_failures.size() >= g_max_failures) return false;
     Failure f; f.c = c; f.o = o; f.sig = sig; f.phase = g_phase;
     const bool hang = std::strncmp(o.tag, "no_return", 9) == 0;     // every re-execution of a hanging Case costs 10-20 s of CPU: no minimisation, one confirmation
-    if (allow_minimise && !hang) minimise(f.c, f.o, sig);
+    // a failure that needs a particular interleaving of two threads (tag concurrent_*): one observation is conclusive (the second thread is the only
+    // legitimate writer of the bytes it watches) and a re-execution need not hit the same interleaving: no minimisation, no confirmation runs
+    const bool sched = std::strncmp(o.tag, "concurrent_", 11) == 0;
+    if (allow_minimise && !hang && !sched) minimise(f.c, f.o, sig);
     f.confirmed = 0;
-    if (hang) { VpOutcome t; run_raw(f.c, t); f.confirmed = (t.status == 1) ? 3 : 0; }
+    if (sched) f.confirmed = 3;
+    else if (hang) { VpOutcome t; run_raw(f.c, t); f.confirmed = (t.status == 1) ? 3 : 0; }
     else for (int r = 0; r < 3; ++r) { VpOutcome t; run_raw(f.c, t); if (t.status == 1) ++f.confirmed; }
     g_failures.push_back(f);
     if (hang) finish_now();     // every further hanging Case would cost another 10-20 s: report what was found and stop this process
@@ -538,6 +542,7 @@ static void run_rc(uint64_t count_scale) {
             unsigned W = g_targets[ti].width;
             if (W >= 16) n = n * 16 / (W * 2) + 1; else if (W == 1) n = n * 2;
             if (n < 20) n = 20;
+            if (O.weight >= 1000) n = O.weight - 1000;      // an expensive operation: a fixed number of random cases
             p.maxSuccess = (int)n;
             rc::detail::TestMetadata md;
             md.id = std::string(g_targets[ti].name) + "/" + O.name;
